@@ -8,6 +8,7 @@ import (
 	"bytes"
 	"crypto/sha1"
 	"encoding/json"
+	"errors"
 	"fmt"
 	"io"
 	"strings"
@@ -24,7 +25,7 @@ var Check = &mc.Check{
 	ID:    "C13",
 	Level: "model_checking",
 	Rule: "reader: BFS over sequences of {Peek(n), Skip(n), ReadByte, ReadBinary(n), Read(n), Release, Len} with n in {1,2,4095,4096,4097,8192,(524289)} to depth 5 (thorough 7) for each (fragmentation script, initial buffer size), states deduplicated on (link-buffer dump, bytes consumed from the wire, outstanding peeked slices); " +
-		"writer: all sequences up to depth 4 (5) over {Malloc(n), WriteBinary(n), Flush, ReadFrom(n)} with n in {0,1,4095,4096,8192} plus Malloc(8193) and ReadFrom(20000) x write-error position; non-trivial = transitions that change the buffer layout",
+		"writer: all sequences up to depth 4 (5) over {Malloc(n), WriteBinary(n), Flush, ReadFrom(n)} with n in {0,1,4095,4096,8192} plus Malloc(8193), ReadFrom(20000) and ReadFrom from a source that fails after {0,200,4096} bytes x write-error position {none,1,4096,5000} x {permanent: only a prefix is promised; transient (n>0,err) once: the sequence goes on and the next Flush that returns nil has delivered everything exactly once}; non-trivial = transitions that change the buffer layout",
 	Run:    run,
 	Replay: replay,
 	Assumptions: []string{
@@ -59,6 +60,8 @@ type Case struct {
 	Ops    []Op   `json:"ops"`
 	// writer
 	FailAt int `json:"fail_at,omitempty"`
+	// Transient: the write error happens once (an expired write deadline); the sequence goes on afterwards
+	Transient bool `json:"transient,omitempty"`
 }
 
 var (
@@ -402,11 +405,17 @@ type wop struct {
 }
 
 type errAfterReader struct {
-	b []byte
+	b   []byte
+	end error // nil = io.EOF
 }
+
+var errSource = errors.New("harness: the source of ReadFrom fails")
 
 func (r *errAfterReader) Read(p []byte) (int, error) {
 	if len(r.b) == 0 {
+		if r.end != nil {
+			return 0, r.end
+		}
 		return 0, io.EOF
 	}
 	n := copy(p, r.b)
@@ -414,9 +423,10 @@ func (r *errAfterReader) Read(p []byte) (int, error) {
 	return n, nil
 }
 
-func runWriter(c *mc.Ctx, ops []Op, failAt int, report bool) {
+func runWriter(c *mc.Ctx, ops []Op, failAt int, transient, report bool) {
 	sc := netsim.NewScriptConn(nil, netsim.EndEOF)
 	sc.WriteFailAt = failAt
+	sc.WriteFailOnce = transient
 	conn := netsim.Wrap(sc, 4096)
 	var want []byte
 	var keep [][]byte // buffers handed to WriteBinary must stay valid until Flush
@@ -424,7 +434,7 @@ func runWriter(c *mc.Ctx, ops []Op, failAt int, report bool) {
 	failed := false
 	fail := func(kind, msg string) {
 		if report {
-			c.Violate("writer|"+kind, fmt.Sprintf("operations %v (write error at %d): %s", ops, failAt, msg), Case{Side: "writer", Ops: ops, FailAt: failAt})
+			c.Violate("writer|"+kind, fmt.Sprintf("operations %v (write error at %d, transient=%v): %s", ops, failAt, transient, msg), Case{Side: "writer", Ops: ops, FailAt: failAt, Transient: transient})
 		}
 	}
 	defer func() {
@@ -464,13 +474,31 @@ func runWriter(c *mc.Ctx, ops []Op, failAt int, report bool) {
 				return
 			}
 			want = append(want, d...)
-		case "readfrom":
+		case "readfrom", "readfromerr":
 			d := fill(o.N)
 			rf, ok := conn.(io.ReaderFrom)
 			if !ok {
 				continue
 			}
-			n, err := rf.ReadFrom(&errAfterReader{b: append([]byte(nil), d...)})
+			src := &errAfterReader{b: append([]byte(nil), d...)}
+			if o.K == "readfromerr" {
+				src.end = errSource
+			}
+			n, err := rf.ReadFrom(src)
+			if o.K == "readfromerr" && err == nil {
+				fail("readfrom-source-error-lost", fmt.Sprintf("operation %d: ReadFrom from a source that fails after %d bytes returned (%d, nil)", i, o.N, n))
+				return
+			}
+			if err != nil && (errors.Is(err, errSource) || transient) {
+				// the copy stopped (source error, or the one transient write error): the n bytes it reports are written
+				// data like any other, and the connection goes on working
+				if n < 0 || int(n) > o.N {
+					fail("readfrom-n", fmt.Sprintf("ReadFrom of %d bytes returned %d", o.N, n))
+					return
+				}
+				want = append(want, d[:n]...)
+				break
+			}
 			if err != nil {
 				if failAt == 0 {
 					fail("readfrom-error", fmt.Sprintf("operation %d: ReadFrom of %d bytes from a reader that does not fail, over a connection that does not fail, returned (%d, %v)", i, o.N, n, err))
@@ -487,6 +515,14 @@ func runWriter(c *mc.Ctx, ops []Op, failAt int, report bool) {
 			want = append(want, d...)
 		case "flush":
 			err := conn.Flush()
+			if err != nil && transient {
+				// the peer holds a prefix; a later Flush has to deliver the rest, once
+				if !bytes.HasPrefix(want, sc.Out) {
+					fail("prefix", fmt.Sprintf("after a write error the peer holds %d bytes that are not a prefix of the written data (first difference at %d)", len(sc.Out), firstDiff(sc.Out, want)))
+					return
+				}
+				break
+			}
 			if err != nil {
 				failed = true
 				break
@@ -515,6 +551,8 @@ func writerSeqs(depth int) [][]Op {
 	}
 	// a reservation just above the recyclable node size, and a copy longer than the node that reservation leaves behind
 	al = append(al, Op{"malloc", 8193}, Op{"readfrom", 20000})
+	// copies whose source fails after some bytes
+	al = append(al, Op{"readfromerr", 0}, Op{"readfromerr", 200}, Op{"readfromerr", 4096})
 	al = append(al, Op{K: "flush"})
 	var out [][]Op
 	var rec func(p []Op)
@@ -561,10 +599,16 @@ func run(c *mc.Ctx) {
 	c.ParallelFor(len(seqs), func(i int) {
 		for _, fa := range []int{0, 1, 4096, 5000} {
 			// a final flush is appended so that every sequence is judged
-			ops := append(append([]Op{}, seqs[i]...), Op{K: "flush"})
-			runWriter(c, ops, fa, true)
-			c.Add("executions", 1)
-			c.Add("transitions", int64(len(ops)))
+			// (two of them: after a transient write error the first may fail, the second has to deliver)
+			ops := append(append([]Op{}, seqs[i]...), Op{K: "flush"}, Op{K: "flush"})
+			for _, tr := range []bool{false, true} {
+				if tr && fa == 0 {
+					continue
+				}
+				runWriter(c, ops, fa, tr, true)
+				c.Add("executions", 1)
+				c.Add("transitions", int64(len(ops)))
+			}
 		}
 	})
 }
@@ -575,7 +619,7 @@ func replay(c *mc.Ctx, raw json.RawMessage) {
 		return
 	}
 	if cs.Side == "writer" {
-		runWriter(c, cs.Ops, cs.FailAt, true)
+		runWriter(c, cs.Ops, cs.FailAt, cs.Transient, true)
 		return
 	}
 	_, k, msg := runPath(cs.Script, cs.Ops)
